@@ -11,6 +11,8 @@ from checks import _flow
 from checks._flow import FlowModel
 
 ID = "C11"
+# computational entry points whose results are watched by the engine's retained-result oracle (mc/explore.py)
+RETAIN = [('hydrodiy.gis.grid', 'accumulate')]
 SUPERVISED = True
 CASE_TIMEOUT = 30.0
 RULE = ("every flow-direction grid of the listed shapes over {0, 8 ESRI codes, a small invalid code, an invalid code beyond 2^32 whose low 32 bits are a valid code} (reduced per-cell "
